@@ -107,20 +107,29 @@ def run(ctx):
                      "rejection happened (log length >= 2 or outcome error)")
 
     # binding self-test: flipped expectations must be noticed
-    probe = next(s for s in states if s["status"] == "connected" and len(s["log"]) >= 3)
-    bad1 = dict(probe)
-    bad1["log"] = tuple(probe["log"][:-1])
-    bad2 = dict(probe)
-    bad2["status"] = "error"
-    bad3 = dict(probe)
-    bad3["ver"] = probe["ver"] + 1
-    n = 0
-    for bad in (bad1, bad2, bad3):
-        _, d = _run_one(bad, "max", "connect")
-        if not d:
-            raise tlc.MachineryError("binding self-test failed: corrupted expectation accepted")
-        n += 1
-    ctx.note("binding_selftest", {"corrupted_rejected": n})
+    probe = None
+    for cand in [s for s in states if s["status"] == "connected" and len(s["log"]) >= 3][:25]:
+        if not _run_one(cand, "max", "connect")[1]:
+            probe = cand
+            break
+    if probe is None:
+        if not seen_sig:
+            raise tlc.MachineryError("binding self-test: no conforming probe configuration")
+        ctx.note("binding_selftest", {"skipped": "the code under test diverges on every probe"})
+    else:
+        bad1 = dict(probe)
+        bad1["log"] = tuple(probe["log"][:-1])
+        bad2 = dict(probe)
+        bad2["status"] = "error"
+        bad3 = dict(probe)
+        bad3["ver"] = probe["ver"] + 1
+        n = 0
+        for bad in (bad1, bad2, bad3):
+            _, d = _run_one(bad, "max", "connect")
+            if not d:
+                raise tlc.MachineryError("binding self-test failed: corrupted expectation accepted")
+            n += 1
+        ctx.note("binding_selftest", {"corrupted_rejected": n})
     ctx.assumptions += [
         "the server rejects a version on the first frame of a connection (OPTIONS), with the two error messages Cassandra uses",
         "implicit configurations start from any non-beta supported version (Cluster.protocol_version as left by an earlier "
